@@ -33,6 +33,9 @@ def _task(arg):
     ob = _OBS[i]
     _quiet()
     t0 = time.time()
+    import tempfile, shutil
+    scratch = tempfile.mkdtemp(prefix="verif_task_")   # every temp file of this task lives here and is removed with it
+    tempfile.tempdir = scratch
     try:
         if kind == "run":
             if ob.kind == "e1":
@@ -52,6 +55,9 @@ def _task(arg):
             return (kind, i, extra, out, None)
     except BaseException as e:  # engine crash
         return (kind, i, extra, None, "".join(traceback.format_exception(type(e), e, e.__traceback__))[-2000:])
+    finally:
+        tempfile.tempdir = None
+        shutil.rmtree(scratch, True)
 
 
 def load_known():
